@@ -22,8 +22,10 @@ partial def parseRS (j : Json) : RS :=
     | .arr #[.str k, s] => some (k.toList, parseRS s)
     | _ => none
   let items := if isNull j "items" then none else some (parseRS (getD j "items" Json.null))
+  let nt := if isNull j "not" then none else some (parseRS (getD j "not" Json.null))
   RS.mk (parseTy (getStr j "ty")) (getBool j "nullable") (getBool j "ro") (getBool j "wo") (getNat j "minLen")
     (optInt j "max") props ((strs (getArr j "required")).map String.toList) (optBool j "addl") items
+    nt ((getArr j "oneOf").map parseRS) ((getArr j "anyOf").map parseRS) ((getArr j "allOf").map parseRS)
 
 /-- value: null | bool | {"i":n} | {"h":n} | {"s":".."} | {"a":[..]} | {"o":[[k,v]..]} -/
 partial def parseV (j : Json) : V :=
@@ -100,7 +102,20 @@ def ctLevel (c : List (Str × MediaType)) (mime : Str) : String :=
     else if (lookup star c).isSome then "ct.star" else "ct.none"
 
 partial def hasRO (s : RS) : Bool :=
-  s.props.any (fun (_, p) => p.ro || hasRO p) || (match s.items with | some it => hasRO it | none => false)
+  s.props.any (fun (_, p) => p.ro || hasRO p) || (match s.items with | some it => hasRO it | none => false) ||
+  (match s.nt with | some n => hasRO n | none => false) || (s.oneOf ++ s.anyOf ++ s.allOf).any hasRO
+
+/-- readOnly property declared inside a composition member (any depth) -/
+partial def roInComp (inside : Bool) (s : RS) : Bool :=
+  s.props.any (fun (_, p) => (inside && p.ro) || roInComp inside p) ||
+  (match s.items with | some it => roInComp inside it | none => false) ||
+  (match s.nt with | some n => roInComp true n | none => false) || (s.oneOf ++ s.anyOf ++ s.allOf).any (roInComp true)
+
+partial def compKinds (s : RS) : List String :=
+  (if s.nt.isSome then ["comp.not"] else []) ++ (if !s.oneOf.isEmpty then ["comp.oneOf"] else []) ++
+  (if !s.anyOf.isEmpty then ["comp.anyOf"] else []) ++ (if !s.allOf.isEmpty then ["comp.allOf"] else []) ++
+  (s.props.map (fun kp => compKinds kp.2)).flatten ++ (match s.items with | some it => compKinds it | none => []) ++
+  ((s.oneOf ++ s.anyOf ++ s.allOf).map compKinds).flatten ++ (match s.nt with | some n => compKinds n | none => [])
 
 def decLabel (reg : List (Str × DecK)) (ct : Str) : String :=
   match lookup (base ct) reg with
@@ -140,10 +155,16 @@ def handle (j : Json) : Json :=
     (match dv with
      | some (s, v) =>
        (if hasRO s then ["schema.readOnly"] else []) ++
+       (if roInComp false s then ["schema.readOnly.inComposition"] else []) ++
+       (compKinds s).eraseDups ++
+       (if !(compKinds s).isEmpty && lookup (base ct) registry == some .urlencoded then ["form.composition"] else []) ++
+       (if !s.allOf.isEmpty && lookup (base ct) registry == some .multipart then ["multipart.allOf"] else []) ++
+       (if lookup (base ct) registry == some .urlencoded && !(sel.map (·.encs.isEmpty)).getD true then ["form.encoding"] else []) ++
        (if hasRO s && exro then ["opt.exro"] else []) ++
        (if visit exro s v != visit (!exro) s v then ["opt.exro.decides"] else []) ++
        (match v with | .obj _ => ["val.obj"] | .arr _ => ["val.arr"] | .str _ => ["val.str"] | .null => ["val.null"] | _ => ["val.prim"])
      | none => []) ++
+    (if !(b.text = []) && b.text.all (fun c => c == ' ' || c == '\n' || c == '\t' || c == '\r') then ["body.blank"] else []) ++
     (if !excl.isEmpty then ["excl"] else []) ++
     (if !formEncsWF registry rb ct b then ["form.encs.notWF"] else [])
   if out = .unmodelled then
